@@ -229,13 +229,24 @@ DecodeEv(t, s) == t # s /\ \E nc \in CapChoices(pg[t]) \cup {GO} :
                     LET src == Compact(pg[s]) IN
                     /\ pg' = [pg EXCEPT ![s] = src, ![t] = ImplDecodeSame(pg[t], src, nc)]
                     /\ am' = [am EXCEPT ![t] = MergeM(am[t], am[s])]
+\* decode of the encoding of a small literal store (keeps the one-slot state space while reaching the batch boundaries
+\* and the page blocks of the decoder): sources are built by unit adds of every key sequence of length 1..2 and two longer ones
+SrcOf(q) == LET F[k \in 0..Len(q)] == IF k = 0 THEN NewPaged ELSE ImplAdd1(F[k - 1], q[k], Unit, GO) IN Compact(F[Len(q)])
+LitSources ==
+  LET k1 == CHOOSE x \in Keys : \A y \in Keys : x <= y
+      k2 == CHOOSE x \in Keys : \A y \in Keys : x >= y
+  IN {SrcOf(q) : q \in UNION {[1..n -> Keys] : n \in 1..2}}
+       \cup {SrcOf(<<k1, k1, k2, k1, k2>>), SrcOf(<<k2, k1, k1, k1>>)}
+DecodeLitEv(s) == Cardinality(Slots) = 1 /\ \E src \in LitSources, nc \in {GO, Len(pg[s].buf) + 1} :
+                    /\ pg' = [pg EXCEPT ![s] = ImplDecodeSame(pg[s], src, nc)]
+                    /\ am' = [am EXCEPT ![s] = MergeM(am[s], AbsBins(src, Unit))]
 ReweightEv(s) == /\ Divisible(am[s], 1, 2) /\ Unit % 2 = 0
                  /\ pg' = [pg EXCEPT ![s] = ImplReweight(pg[s], 1, 2, Unit)]
                  /\ am' = [am EXCEPT ![s] = ScaleM(am[s], 1, 2)]
 
 Next ==
   \/ \E s \in Slots, i \in Keys, w \in WeightsW : AddEv(s, i, w)
-  \/ \E s \in Slots : ReadEv(s) \/ EncodeEv(s) \/ ClearEv(s) \/ ReweightEv(s)
+  \/ \E s \in Slots : ReadEv(s) \/ EncodeEv(s) \/ ClearEv(s) \/ ReweightEv(s) \/ DecodeLitEv(s)
   \/ \E s, t \in Slots : CopyEv(t, s) \/ MergeEv(t, s) \/ DecodeEv(t, s)
 
 Spec == Init /\ [][Next]_vars
